@@ -24,5 +24,9 @@ theorem inv1_kstep (st st' : St) (k : Kt) (pc : KPc) (e : Env) (h : Inv1 st)
   | xor c => kprep; crunch
   | xio c => kprep; crunch
   | xtake s => kprep; crunch
+  | reg0 s c r => kprep; crunch
+  | chk2 s c => kprep; crunch
+  | own s => kprep; crunch
+  | ownDis s c => kprep; crunch
 
 end MayVerif.Io
